@@ -229,4 +229,24 @@ theorem reshape_vec_to_3d_positions (c h w : Nat) (v : V1 α) (hv : v.length = c
 /-- non-vacuity: a 2 × 2 × 3 tensor, element (1, 0, 2) at position 1·6 + 0·3 + 2 = 8 -/
 example : (L.flatten3 [[[0, 1, 2], [3, 4, 5]], [[6, 7, 8], [9, 10, 11]]] : List Nat)[1 * (2 * 3) + (0 * 3 + 2)]? = some 8 := by decide
 
+/-- reading a vector as `c × h × w` (`get_triple`, the entry of every spatial layer fed a flat input):
+    element `(i, j, k)` of what is read is element `i·(h·w) + j·w + k` of the vector -/
+theorem getTriple_positions (c h w : Nat) (v : V1 α) (hv : v.length = c * h * w) :
+    ∃ d, (Tensor.single v).getTriple (.triple c h w) = .ok d ∧
+      ∀ i j k, j < h → k < w → ((d[i]?).bind (·[j]?)).bind (·[k]?) = v[i * (h * w) + (j * w + k)]? := by
+  obtain ⟨d, h1, h2, h3⟩ := getTriple_spec c h w v hv
+  refine ⟨d, h1, ?_⟩
+  intro i j k hj hk
+  rw [← L.flatten3_getElem? d c h w h2 i j k hj hk, h3]
+
+/-- `flatten` (what a dense layer receives from a spatial one): position `i·(h·w) + j·w + k` of the
+    result holds element `(i, j, k)` -/
+theorem flatten_positions (c h w : Nat) (d : V3 α) (hd : L.Dims3 d c h w) (hc : 0 < c) (hh : 0 < h) :
+    ∃ r, (⟨.triple c h w, .triple d⟩ : Tensor α).flatten = .ok r ∧
+      ∀ i j k, j < h → k < w → r.flat[i * (h * w) + (j * w + k)]? = ((d[i]?).bind (·[j]?)).bind (·[k]?) := by
+  obtain ⟨r, h1, _, _, h4⟩ := flatten_spec c h w d hd hc hh
+  refine ⟨r, h1, ?_⟩
+  intro i j k hj hk
+  rw [h4, L.flatten3_getElem? d c h w hd i j k hj hk]
+
 end C14
